@@ -253,12 +253,15 @@ theorem new_as_in_source (s : State) (k : Kind) (hasId : Bool) :
 /-- the referential read: the getter installed by `Association.formalize` navigates the TARGET link, falls back to
     the previously installed property exactly when there is no partner and such a property exists, and otherwise
     returns the partner's attribute (None without partner); the layers pair referential with identifying keys
-    as the wrapping loop zips them -/
+    as the wrapping loop zips them; "such a property exists" is read as "an earlier formalisation of the attribute
+    exists" (the layer list has a tail), which is what the source does since it takes over what was installed under
+    the name only if that is a property (`fgetAltIsPropertyOnly`; a method of the same name, e.g. `mro`, is ignored) -/
 theorem referential_read_as_in_source (sch : Schema) (at_ : Attrs) (s : State) (fuel : Nat) :
     (∀ x name, getAttr sch at_ s fuel x name = iGetAttr fgetLink fgetFallback sch at_ s fuel x name) ∧
     (∀ x layers, readLayers sch at_ s fuel x layers = iReadLayers fgetLink fgetFallback sch at_ s fuel x layers) ∧
-    (∀ a, keyPairs a = iKeyPairs fgetZip a) :=
-  ⟨(getAttr_readLayers_eq sch at_ s fuel).1, (getAttr_readLayers_eq sch at_ s fuel).2, keyPairs_eq⟩
+    (∀ a, keyPairs a = iKeyPairs fgetZip a) ∧
+    fgetAltIsPropertyOnly = true :=
+  ⟨(getAttr_readLayers_eq sch at_ s fuel).1, (getAttr_readLayers_eq sch at_ s fuel).2, keyPairs_eq, rfl⟩
 
 /-! non-vacuity: the interpreter is not a renaming of the model — it runs the generated IR on the 1:1 schema above
     and produces the link, the rejection with undo, the unknown-link exception and the delete -/
